@@ -247,14 +247,19 @@ KindOf(fn, dt, j) == IF fn \in IndexFns THEN "i" ELSE IF fn \in BoolFns THEN "b"
 SameNums(obs, exp) == /\ Len(obs) = Len(exp)
                       /\ \A j \in 1..Len(exp) : obs[j].sh = exp[j].sh /\ obs[j].v = exp[j].v
 SameKinds(obs, kinds) == Len(obs) = Len(kinds) /\ \A j \in 1..Len(kinds) : obs[j].k = kinds[j]
+\* the arguments after the call: every array argument still holds the numbers the case passed in (the first argument of
+\* an in-place writer is the target and is judged by the target clause)
+InputsKept(c, ins) == /\ Len(ins) = Len(c.a)
+                      /\ \A j \in 1..Len(c.a) : (j = 1 /\ c.fn \in InPlaceFns) \/ (ins[j].sh = c.a[j].sh /\ ins[j].v = c.a[j].v)
 \* failing clauses of the property on a structural case (empty = holds); a refusal is allowed by the statement
 S_Fails(c, u) == IF u.raise THEN {} ELSE
      (IF Len(u.res) = Len(c.exp) /\ \A j \in 1..Len(c.exp) : u.res[j].sh = c.exp[j].sh THEN {} ELSE {"shape"})
      \cup (IF (Len(u.res) = Len(c.exp) /\ \A j \in 1..Len(c.exp) : u.res[j].sh = c.exp[j].sh) /\ ~SameNums(u.res, c.exp) THEN {"values"} ELSE {})
      \cup (IF SameKinds(u.res, c.kinds) \/ Len(u.res) # Len(c.exp) THEN {} ELSE {"kind"})
      \cup (IF SameNums(u.tg, c.texp) THEN {} ELSE {"target"})
+     \cup (IF InputsKept(c, u.ins) THEN {} ELSE {"inputs"})
 \* is the specification's model of NumPy right? (NumPy on bare data against Part A)
-S_OracleOK(c, b) == ~b.raise /\ SameNums(b.res, c.exp) /\ SameKinds(b.res, c.kinds) /\ SameNums(b.tg, c.texp)
+S_OracleOK(c, b) == ~b.raise /\ InputsKept(c, b.ins) /\ SameNums(b.res, c.exp) /\ SameKinds(b.res, c.kinds) /\ SameNums(b.tg, c.texp)
 \* T: the handler-level transition (semantics of the routine forwarded to)
 S_T(c, u) == ~u.raise /\ SameNums(u.res, c.m) /\ (c.fwd = "" \/ c.fwd \in {u.fwd[j] : j \in 1..Len(u.fwd)})
 =============================================================================
